@@ -10,7 +10,9 @@ does, with the same points, independent of argument order.
   §C  the specification IS the set intersection (`mem_segInter2_iff`, `mem_segInter3_iff`)
   §D  independence of argument order (`seg_symmetric`, `seg2d_symmetric`, `seg3d_symmetric`)
   §E  what the code does outside the property: zero-length segments, the dropped assertion
-  §F  the two findings: `segments_3d` as coded violates the property (`decide` witnesses)
+  §F  the two (meanwhile repaired) defects of `segments_3d`: `decide` witnesses on the pre-repair model `seg3dCode`
+  §G  the squared-form comparisons are the sqrt comparisons of the code (`sqrt_rewrites`, `seg2d_eq_sqrt_form`)
+  §H  column order: 2-D along segment 1; 3-D identical in every argument order (`seg3d_order_independent`)
 -/
 import PorepyVerif.C28.Lemmas
 
@@ -384,7 +386,7 @@ theorem seg2d_assert_never_fires (a b c d : P2)
   · have h1 := this.1; simp only [discr, t1, t2]; linarith
   · have h2 := this.2; simp only [discr, t1, t2]; linarith
 
-/-! ## §F  The two findings: `segments_3d` as it is coded (`seg3dCode`) does NOT satisfy the property -/
+/-! ## §F  The two defects found (repaired in /repo since): `segments_3d` as it WAS coded (`seg3dCode`) does NOT satisfy the property -/
 
 /-- F-A: a vertical segment crossing a diagonal horizontal one in the origin.  The code picks the
     coordinate pair (x, y) because both have an extent in one of the lines; the (x, y)-minor of the
@@ -403,5 +405,97 @@ theorem seg3dCode_doubles_touching_point :
     segInter3 (P3.ofInt 0 0 0) (P3.ofInt 1 1 1) (P3.ofInt 1 1 1) (P3.ofInt 2 2 2) = .point (P3.ofInt 1 1 1) := by
   decide +kernel
 
+
+/-! ## §G  The squared-form comparisons are the sqrt comparisons of the code -/
+
+/-- The three rewrites used in `seg2d`, proved over ℝ with `Real.sqrt` (for `tol ≥ 0` and squared
+    lengths `x, y ≥ 0`):  `|a| < tol·√x·√y ⇔ a² < tol²·x·y`,  `|a| < tol·max(√x,√y) ⇔ a² < tol²·max(x,y)`,
+    `|a| > tol·√x ⇔ a² > tol²·x`. -/
+theorem sqrt_rewrites (a tol x y : ℝ) (ht : 0 ≤ tol) (hx : 0 ≤ x) (hy : 0 ≤ y) :
+    (|a| < tol * Real.sqrt x * Real.sqrt y ↔ a * a < tol * tol * x * y) ∧
+    (|a| < tol * max (Real.sqrt x) (Real.sqrt y) ↔ a * a < tol * tol * max x y) ∧
+    (|a| > tol * Real.sqrt x ↔ a * a > tol * tol * x) :=
+  ⟨abs_lt_tol_sqrt_sqrt_iff a tol x y ht hx hy, abs_lt_tol_max_sqrt_iff a tol x y ht hx hy,
+   abs_gt_tol_sqrt_iff a tol x ht hx⟩
+
+/-- `seg2dSqrt` (Lemmas §9) is `segments_2d` with `length_i = √(d_i·d_i)` as REAL square roots and the
+    four comparisons exactly as coded; for every rational input and `tol ≥ 0` it equals the
+    squared-form model `seg2d`.  (`segments_3d` contains no square root.) -/
+theorem seg2d_eq_sqrt_form (tol : Rat) (h0 : 0 ≤ tol) (a b c d : P2) :
+    seg2dSqrt tol a b c d = seg2d tol a b c d := seg2dSqrt_eq tol h0 a b c d
+
+/-- non-vacuity: the sqrt form on a concrete colinear overlap -/
+example : seg2dSqrt (1 / 100000000) (P2.ofInt 0 0) (P2.ofInt 4 2) (P2.ofInt 6 3) (P2.ofInt 2 1)
+    = .segment (P2.ofInt 2 1) (P2.ofInt 4 2) := by
+  rw [seg2d_eq_sqrt_form _ (by norm_num)]; decide +kernel
+
+/-! ## §H  Column order of a returned segment -/
+
+/-- 2-D convention ("the first point will be closest to start_1"): a segment returned by the
+    specification is `(a + lo·(b−a), a + hi·(b−a))` with `0 ≤ lo < hi ≤ 1`. -/
+theorem segInter2_segment_order (a b c d p q : P2) (h : segInter2 a b c d = .segment p q) :
+    ∃ lo hi : Rat, 0 ≤ lo ∧ lo < hi ∧ hi ≤ 1 ∧
+      p = ⟨a.x + lo * (b.x - a.x), a.y + lo * (b.y - a.y)⟩ ∧ q = ⟨a.x + hi * (b.x - a.x), a.y + hi * (b.y - a.y)⟩ := by
+  unfold segInter2 at h
+  simp only [] at h
+  split_ifs at h
+  unfold overlapParam at h
+  simp only [] at h
+  split_ifs at h with h1 h2
+  have e := Res.segment.inj h
+  exact ⟨_, _, le_max_right _ _, lt_of_le_of_ne (not_lt.mp h1) h2, min_le_right _ _, e.1.symm, e.2.symm⟩
+
+/-- … hence for the model of `segments_2d` under the bound: the column order follows segment 1 (it
+    reverses when the end points of segment 1 are swapped — by design, see the docstring). -/
+theorem seg2d_segment_order (tol : Rat) (B : Int) (hT : TolSmall tol B)
+    (ax ay bx by' cx cy dx dy : Int)
+    (hax : InBox B ax) (hay : InBox B ay) (hbx : InBox B bx) (hby : InBox B by')
+    (hcx : InBox B cx) (hcy : InBox B cy) (hdx : InBox B dx) (hdy : InBox B dy)
+    (nd1 : bx ≠ ax ∨ by' ≠ ay) (nd2 : dx ≠ cx ∨ dy ≠ cy) (p q : P2)
+    (h : seg2d tol (P2.ofInt ax ay) (P2.ofInt bx by') (P2.ofInt cx cy) (P2.ofInt dx dy) = .segment p q) :
+    ∃ lo hi : Rat, 0 ≤ lo ∧ lo < hi ∧ hi ≤ 1 ∧
+      p = ⟨(ax : Rat) + lo * ((bx : Rat) - ax), (ay : Rat) + lo * ((by' : Rat) - ay)⟩ ∧
+      q = ⟨(ax : Rat) + hi * ((bx : Rat) - ax), (ay : Rat) + hi * ((by' : Rat) - ay)⟩ := by
+  rw [seg2d_eq_spec tol B hT ax ay bx by' cx cy dx dy hax hay hbx hby hcx hcy hdx hdy nd1 nd2] at h
+  exact segInter2_segment_order _ _ _ _ p q h
+
+/-- 3-D: the (repaired = current) code returns a segment ascending in the first coordinate in which
+    the segments have an extent, so under the bound the result is independent of argument order
+    EXACTLY — same kind, same points, same column order. -/
+theorem seg3d_order_independent (tol : Rat) (B : Int) (hT : TolSmall tol B)
+    (ax ay az bx by' bz cx cy cz dx dy dz : Int)
+    (hax : InBox B ax) (hay : InBox B ay) (haz : InBox B az)
+    (hbx : InBox B bx) (hby : InBox B by') (hbz : InBox B bz)
+    (hcx : InBox B cx) (hcy : InBox B cy) (hcz : InBox B cz)
+    (hdx : InBox B dx) (hdy : InBox B dy) (hdz : InBox B dz)
+    (nd1 : bx ≠ ax ∨ by' ≠ ay ∨ bz ≠ az) (nd2 : dx ≠ cx ∨ dy ≠ cy ∨ dz ≠ cz) :
+    seg3d tol (P3.ofInt ax ay az) (P3.ofInt bx by' bz) (P3.ofInt cx cy cz) (P3.ofInt dx dy dz)
+      = seg3d tol (P3.ofInt cx cy cz) (P3.ofInt dx dy dz) (P3.ofInt ax ay az) (P3.ofInt bx by' bz) ∧
+    seg3d tol (P3.ofInt ax ay az) (P3.ofInt bx by' bz) (P3.ofInt cx cy cz) (P3.ofInt dx dy dz)
+      = seg3d tol (P3.ofInt bx by' bz) (P3.ofInt ax ay az) (P3.ofInt cx cy cz) (P3.ofInt dx dy dz) ∧
+    seg3d tol (P3.ofInt ax ay az) (P3.ofInt bx by' bz) (P3.ofInt cx cy cz) (P3.ofInt dx dy dz)
+      = seg3d tol (P3.ofInt ax ay az) (P3.ofInt bx by' bz) (P3.ofInt dx dy dz) (P3.ofInt cx cy cz) := by
+  obtain ⟨s1, s2, s3⟩ := seg3d_symmetric tol B hT ax ay az bx by' bz cx cy cz dx dy dz
+    hax hay haz hbx hby hbz hcx hcy hcz hdx hdy hdz nd1 nd2
+  have hB : (1:Rat) ≤ B := by exact_mod_cast hT.one_le
+  have hK1 : (1:Rat) ≤ 8 * B * B := by nlinarith
+  have htol1 : tol ≤ 1 := by have := hT.small; have := hT.pos; nlinarith
+  refine ⟨eq_of_same_of_order s1 ?_, eq_of_same_of_order s2 ?_, eq_of_same_of_order s3 ?_⟩
+  · intro p q p' q' h h'
+    exact seg3d_common_order tol _ _ _ _ _ _ _ _ p q p' q' h h' (seg3d_mask_eq tol _ _ _ _ p q h)
+      (gap_ofInt tol hT.pos htol1 _ _ _ _ _ _ _ _ _ _ _ _) (gap_ofInt tol hT.pos htol1 _ _ _ _ _ _ _ _ _ _ _ _)
+  · intro p q p' q' h h'
+    refine seg3d_common_order tol _ _ _ _ _ _ _ _ p q p' q' h h' ?_
+      (gap_ofInt tol hT.pos htol1 _ _ _ _ _ _ _ _ _ _ _ _) (gap_ofInt tol hT.pos htol1 _ _ _ _ _ _ _ _ _ _ _ _)
+    intro k; cases k <;> simp only [P3.get] <;> exact decide_eq_decide.mpr (by rw [rabs_sub_comm])
+  · intro p q p' q' h h'
+    exact seg3d_common_order tol _ _ _ _ _ _ _ _ p q p' q' h h' (fun _ => rfl)
+      (gap_ofInt tol hT.pos htol1 _ _ _ _ _ _ _ _ _ _ _ _) (gap_ofInt tol hT.pos htol1 _ _ _ _ _ _ _ _ _ _ _ _)
+
+/-- non-vacuity: a colinear overlap given with both segments reversed and swapped — identical output -/
+example : seg3d (1 / 100000000) (P3.ofInt 3 (-3) 3) (P3.ofInt 0 0 0) (P3.ofInt 1 (-1) 1) (P3.ofInt 2 (-2) 2)
+    = .segment (P3.ofInt 1 (-1) 1) (P3.ofInt 2 (-2) 2) ∧
+  seg3d (1 / 100000000) (P3.ofInt 2 (-2) 2) (P3.ofInt 1 (-1) 1) (P3.ofInt 0 0 0) (P3.ofInt 3 (-3) 3)
+    = .segment (P3.ofInt 1 (-1) 1) (P3.ofInt 2 (-2) 2) := by decide +kernel
 
 end PorepyVerif.C28
